@@ -18,36 +18,139 @@ func npmLt0Pre(r Range) bool {
 	return false
 }
 
-// hyphenWild: a hyphen range whose upper bound has a wildcard and, read with the
-// wildcard as -1 (as the library does), orders below the lower bound.
-func npmHyphenWild(r Range) bool {
-	for _, a := range r.Alts {
-		if !a.Hyphen {
-			continue
+// libLessPartial: hi orders below lo the way the library compares the two
+// operands of a hyphen range: numbers padded with 0, a wildcard counting as -1,
+// then the prerelease lists.
+func libLessPartial(hi, lo Partial) bool {
+	at := func(p Partial, i int) int64 {
+		if i < len(p.Nums) {
+			return p.Nums[i]
 		}
-		hasX := false
-		for _, n := range a.Hi.Nums {
-			if n < 0 {
-				hasX = true
-			}
+		return 0
+	}
+	for i := 0; i < 3; i++ {
+		if h, l := at(hi, i), at(lo, i); h != l {
+			return h < l
 		}
-		if !hasX {
-			continue
+	}
+	return cmpPre(hi.Pre, lo.Pre) < 0
+}
+
+func isPartial(p Partial) bool {
+	if len(p.Nums) < 3 {
+		return true
+	}
+	for _, n := range p.Nums {
+		if n < 0 {
+			return true
 		}
-		at := func(p Partial, i int) int64 {
-			if i < len(p.Nums) {
-				return p.Nums[i]
-			}
-			return 0
-		}
+	}
+	return false
+}
+
+const refInf = int64(1)<<62 // stands for the library's infinity in completed upper bounds
+
+// hyphenRejected: the library's hyphen rule rejects `lo - hi`: hi orders below
+// lo as written (libLessPartial), or after completion (lo: wildcards and missing
+// numbers become 0; hi: they become infinity) the upper bound is below the lower.
+func hyphenRejected(lo, hi Partial) bool {
+	if libLessPartial(hi, lo) {
+		return true
+	}
+	if isX(lo, 0) {
+		return false // `*` as lower bound is the library's minimum version
+	}
+	complete := func(p Partial, fill int64) [3]int64 {
+		var out [3]int64
+		wild := false
 		for i := 0; i < 3; i++ {
-			h, l := at(a.Hi, i), at(a.Lo, i)
-			if h != l {
-				if h < l {
+			if i >= len(p.Nums) || p.Nums[i] < 0 || wild {
+				if i < len(p.Nums) {
+					wild = true
+				}
+				out[i] = fill
+			} else {
+				out[i] = p.Nums[i]
+			}
+		}
+		return out
+	}
+	l, h := complete(lo, 0), complete(hi, refInf)
+	for i := 0; i < 3; i++ {
+		if h[i] != l[i] {
+			return h[i] < l[i]
+		}
+	}
+	return cmpPre(hi.Pre, lo.Pre) < 0
+}
+
+// hyphenBelow: a hyphen alternative the library's hyphen rule rejects.
+// partialHi tells the two findings apart: a partial or wildcard upper bound
+// (node completes it upwards: `1.2.3 - 1`, `1 - *`) or a full one (the
+// alternative is empty in node but the other alternatives of the range are not).
+func npmHyphenBelow(r Range, partialHi bool) bool {
+	for _, a := range r.Alts {
+		if a.Hyphen && hyphenRejected(a.Lo, a.Hi) && isPartial(a.Hi) == partialHi {
+			return true
+		}
+	}
+	return false
+}
+
+// ltMidWild: a `<` comparator whose operand has a number after a wildcard (`<1.x.2`).
+func npmLtMidWild(r Range) bool {
+	for _, a := range r.Alts {
+		for _, c := range a.Comps {
+			if c.Op != "<" {
+				continue
+			}
+			seenX := false
+			for _, n := range c.P.Nums {
+				if n < 0 {
+					seenX = true
+				} else if seenX {
 					return true
 				}
-				break
 			}
+		}
+	}
+	return false
+}
+
+// ltPartialPre: the candidate is a prerelease whose [major, minor, patch] is
+// the zero completion of the partial operand of some `<` comparator
+// (`>=1.2.0-a <1.2` and 1.2.0-a: node reads `<1.2.0-0`).
+func npmLtPartialPre(r Range, v SemVer) bool {
+	if len(v.Pre) == 0 {
+		return false
+	}
+	for _, a := range r.Alts {
+		for _, c := range a.Comps {
+			if c.Op == "<" && isPartial(c.P) && !isX(c.P, 0) {
+				M, m := num(c.P, 0), int64(0)
+				if !isX(c.P, 1) {
+					m = num(c.P, 1)
+				}
+				if v.Major == M && v.Minor == m && v.Patch == 0 {
+					return true
+				}
+			}
+		}
+	}
+	return false
+}
+
+// cargoPrePartial: a prerelease candidate against a comma list of at least two
+// comparators one of which has a partial operand: the crate evaluates each
+// comparator component-wise on the prerelease (`~1`, `=1`, `<=1.*` never match
+// one; `>1.1` matches 1.2.0-a), which is not interval membership.
+func cargoPrePartial(r Range, v SemVer) bool {
+	if len(v.Pre) == 0 || len(r.Alts) != 1 || len(r.Alts[0].Comps) < 2 {
+		return false
+	}
+	for _, c := range r.Alts[0].Comps {
+		if isPartial(c.P) {
+			return true
 		}
 	}
 	return false
@@ -84,6 +187,17 @@ func pepNePre0(s PepSpec) bool {
 	return false
 }
 
+// mvnUpperBelowZero: an item without lower bound whose upper bound orders below "0"
+// (the library reads the missing lower bound as 0).
+func mvnUpperBelowZero(r MvnRange) bool {
+	for _, it := range r.Items {
+		if it.Kind == 'R' && !it.HasLo && it.HasHi && mvnBelowZero(it.Hi) {
+			return true
+		}
+	}
+	return false
+}
+
 func classesOf(eco, renc, venc string) ([]string, bool) {
 	var out []string
 	switch eco {
@@ -96,17 +210,32 @@ func classesOf(eco, renc, venc string) ([]string, bool) {
 		if npmLt0Pre(rg) {
 			out = append(out, "F-C03-lt0pre")
 		}
-		if npmHyphenWild(rg) {
+		if npmHyphenBelow(rg, true) {
 			out = append(out, "F-C03-hyphen-wild")
+		}
+		if npmHyphenBelow(rg, false) {
+			out = append(out, "F-C03-hyphen-inverted")
+		}
+		if npmLtMidWild(rg) {
+			out = append(out, "F-C03-lt-midwild")
+		}
+		if npmLtPartialPre(rg, v) {
+			out = append(out, "F-C03-lt-partial-pre")
 		}
 		if npmStarCollapse(rg) && len(v.Pre) > 0 {
 			out = append(out, "F-C03-star-collapse")
 		}
 	case "cargo":
-		_, ok1 := DecRange(renc)
-		_, ok2 := DecSemVer(venc)
+		rg, ok1 := DecRange(renc)
+		v, ok2 := DecSemVer(venc)
 		if !ok1 || !ok2 {
 			return nil, false
+		}
+		if npmLt0Pre(rg) {
+			out = append(out, "F-C03-lt0pre")
+		}
+		if cargoPrePartial(rg, v) {
+			out = append(out, "F-C03-cargo-pre-partial")
 		}
 	case "pypi":
 		s, ok1 := DecPepSpec(renc)
@@ -118,12 +247,12 @@ func classesOf(eco, renc, venc string) ([]string, bool) {
 			out = append(out, "F-C03-ne-pre0")
 		}
 	case "maven":
-		_, ok1 := DecMvnRange(renc)
+		rg, ok1 := DecMvnRange(renc)
 		v, ok2 := DecMvnVer(venc)
 		if !ok1 || !ok2 {
 			return nil, false
 		}
-		if mvnBelowZero(v) {
+		if mvnBelowZero(v) || mvnUpperBelowZero(rg) {
 			out = append(out, "F-C03-mvn-neg")
 		}
 	default:
